@@ -215,18 +215,19 @@ import "go.lstv.dev/util/internal"
 // level-1 keys only exist before the object's closing brace
 // inObject(w, from, j): token j lies before the closing brace of the object whose members start at token `from`
 //@ pure func inObject(w bytes, from int, j int) bool = forall c in from..j+1 :: !docIsClose(w, c)
-//@ pure func docCause(w bytes, from int, r Rule, e error) bool =
-//@        (errIs(e, ErrObjectTooBig) && MaxObjectKeys != 0 && exists to in from..docNTok(w)+1 :: docNKeys(w, to) - docNKeys(w, from) > MaxObjectKeys)
-//@     || (errData(e, "origin") == 1 && (docGarbage(w) || forall j in from..docNTok(w) :: !docIsClose(w, j)))
-//@     || (errIs(e, ErrDuplicatedValueKey) && exists j in from..docNTok(w) :: exists k in from..docNTok(w) :: j != k && wValKey(w, j) && wValKey(w, k))
-//@     || (errIs(e, ErrDuplicatedUnitKey) && exists j in from..docNTok(w) :: exists k in from..docNTok(w) :: j != k && wUnitKey(w, j) && wUnitKey(w, k))
-//@     || (errIs(e, ErrInvalidType) && exists j in from..docNTok(w) :: j+1 < docNTok(w) && ((wValKey(w, j) && docKind(w, j+1) != 6) || (wUnitKey(w, j) && docKind(w, j+1) != 5)))
-//@     || (errData(e, "origin") == 2 && exists j in from..docNTok(w) :: wValKey(w, j) && j+1 < docNTok(w) && docKind(w, j+1) == 6 && !decOK(docText(w, j+1)))
-//@     || (errIs(e, ErrUnexpectedKey) && r&RuleDisallowUnknownKeys != 0 && exists j in from..docNTok(w) :: docIsKey(w, j) && !wValKey(w, j) && !wUnitKey(w, j))
-//@     || (errIs(e, ErrMissingValueKey) && forall j in from..docNTok(w) :: inObject(w, from, j) ==> !wValKey(w, j))
-//@     || (errIs(e, ErrMissingUnitKey) && forall j in from..docNTok(w) :: inObject(w, from, j) ==> !wUnitKey(w, j))
-//@     || (exists jv in from..docNTok(w) :: exists ju in from..docNTok(w) :: wValMember(w, jv) && wUnitMember(w, ju) && !pairOK(decVal(docText(w, jv+1)), docText(w, ju+1)))
-//@     || (errIs(e, ErrUnexpectedData) && exists c in from..docNTok(w)-1 :: docIsClose(w, c))
+//@ pure func cause1(w bytes, from int, n int, r Rule, e error) bool = (errIs(e, ErrObjectTooBig) && MaxObjectKeys != 0 && exists to in from..n+1 :: docNKeys(w, to) - docNKeys(w, from) > MaxObjectKeys)
+//@ pure func cause2(w bytes, from int, n int, r Rule, e error) bool = (errData(e, "origin") == 1 && (docGarbage(w) || forall j in from..n :: !docIsClose(w, j)))
+//@ pure func cause3(w bytes, from int, n int, r Rule, e error) bool = (errIs(e, ErrDuplicatedValueKey) && exists j in from..n :: exists k in from..n :: j != k && wValKey(w, j) && wValKey(w, k))
+//@ pure func cause4(w bytes, from int, n int, r Rule, e error) bool = (errIs(e, ErrDuplicatedUnitKey) && exists j in from..n :: exists k in from..n :: j != k && wUnitKey(w, j) && wUnitKey(w, k))
+//@ pure func cause5(w bytes, from int, n int, r Rule, e error) bool = (errIs(e, ErrInvalidType) && exists j in from..n :: j+1 < n && ((wValKey(w, j) && docKind(w, j+1) != 6) || (wUnitKey(w, j) && docKind(w, j+1) != 5)))
+//@ pure func cause6(w bytes, from int, n int, r Rule, e error) bool = (errData(e, "origin") == 2 && exists j in from..n :: wValKey(w, j) && j+1 < n && docKind(w, j+1) == 6 && !decOK(docText(w, j+1)))
+//@ pure func cause7(w bytes, from int, n int, r Rule, e error) bool = (errIs(e, ErrUnexpectedKey) && r&RuleDisallowUnknownKeys != 0 && exists j in from..n :: docIsKey(w, j) && !wValKey(w, j) && !wUnitKey(w, j))
+//@ pure func cause8(w bytes, from int, n int, r Rule, e error) bool = (errIs(e, ErrMissingValueKey) && forall j in from..n :: inObject(w, from, j) ==> !wValKey(w, j))
+//@ pure func cause9(w bytes, from int, n int, r Rule, e error) bool = (errIs(e, ErrMissingUnitKey) && forall j in from..n :: inObject(w, from, j) ==> !wUnitKey(w, j))
+//@ pure func cause10(w bytes, from int, n int, r Rule, e error) bool = (exists jv in from..n :: exists ju in from..n :: wValMember(w, jv) && wUnitMember(w, ju) && !pairOK(decVal(docText(w, jv+1)), docText(w, ju+1)))
+//@ pure func cause11(w bytes, from int, n int, r Rule, e error) bool = (errIs(e, ErrUnexpectedData) && exists c in from..n-1 :: docIsClose(w, c))
+//@ pure func docCauseN(w bytes, from int, n int, r Rule, e error) bool = cause1(w, from, n, r, e) || cause2(w, from, n, r, e) || cause3(w, from, n, r, e) || cause4(w, from, n, r, e) || cause5(w, from, n, r, e) || cause6(w, from, n, r, e) || cause7(w, from, n, r, e) || cause8(w, from, n, r, e) || cause9(w, from, n, r, e) || cause10(w, from, n, r, e) || cause11(w, from, n, r, e)
+//@ pure func docCause(w bytes, from int, r Rule, e error) bool = docCauseN(w, from, docNTok(w), r, e)
 //@ func unmarshalJSONObject
 //@   requires keyPos(d)
 //@   ghost p0 = decPos(d)
@@ -277,13 +278,14 @@ import "go.lstv.dev/util/internal"
 //@     && (docNTok(w) > 1 ==> errIs(err, ErrUnexpectedData))
 // object form: '{' members '}' and nothing else; exactly one value member and one unit member among the keys of the
 // object, wherever they stand; no other key when unknown keys are disallowed; at most MaxObjectKeys keys
-//@ pure func objectOutcome(w bytes, r Rule, res Size, err error) bool = (r&RuleEnableJSONObjectForm == 0 ==> errIs(err, ErrObjectFormDisabled))
-//@     && (err == nil ==> r&RuleEnableJSONObjectForm != 0 && docNTok(w) >= 2 && docKind(w, docNTok(w)-1) == 2 && !docGarbage(w)
-//@         && (exists jv in 1..docNTok(w)-1 :: exists ju in 1..docNTok(w)-1 :: wValMember(w, jv) && wUnitMember(w, ju)
+//@ pure func objAccepted(w bytes, n int, r Rule, res Size) bool = r&RuleEnableJSONObjectForm != 0 && n >= 2 && docKind(w, n-1) == 2 && !docGarbage(w)
+//@         && (exists jv in 1..n-1 :: exists ju in 1..n-1 :: wValMember(w, jv) && wUnitMember(w, ju)
 //@               && sizeOfPair(res, decVal(docText(w, jv+1)), docText(w, ju+1))
-//@               && (forall k in 1..docNTok(w)-1 :: k != jv ==> !wValKey(w, k)) && (forall k in 1..docNTok(w)-1 :: k != ju ==> !wUnitKey(w, k)))
-//@         && (r&RuleDisallowUnknownKeys != 0 ==> forall j in 1..docNTok(w)-1 :: docIsKey(w, j) ==> wValKey(w, j) || wUnitKey(w, j))
-//@         && (MaxObjectKeys != 0 ==> docNKeys(w, docNTok(w)-1) - docNKeys(w, 1) <= MaxObjectKeys))
+//@               && (forall k in 1..n-1 :: k != jv ==> !wValKey(w, k)) && (forall k in 1..n-1 :: k != ju ==> !wUnitKey(w, k)))
+//@         && (r&RuleDisallowUnknownKeys != 0 ==> forall j in 1..n-1 :: docIsKey(w, j) ==> wValKey(w, j) || wUnitKey(w, j))
+//@         && (MaxObjectKeys != 0 ==> docNKeys(w, n-1) - docNKeys(w, 1) <= MaxObjectKeys)
+//@ pure func objectOutcome(w bytes, r Rule, res Size, err error) bool = (r&RuleEnableJSONObjectForm == 0 ==> errIs(err, ErrObjectFormDisabled))
+//@     && (err == nil ==> objAccepted(w, docNTok(w), r, res))
 //@     && (err != nil && r&RuleEnableJSONObjectForm != 0 ==> docCause(w, 1, r, err))
 //@ pure func jsonOutcome(w bytes, r Rule, res Size, err error) bool = (docNTok(w) == 0 ==> err != nil)
 //@     && (docNTok(w) >= 1 && docKind(w, 0) == 6 ==> scalarOutcome(w, res, err))
@@ -556,8 +558,28 @@ func lemmaJSONStringRead(b []byte, s Size) (got Size, err error) {
 func lemmaJSONObjectRead(b, d, u []byte, s Size) (got Size, err error) {
 	axiomJSONObject(b, d, u)
 	err = got.UnmarshalJSON(b)
+	lemmaSixTokens(b, DefaultRule, got, err)
 	return got, err
 }
+
+// for a document of six tokens the quantified statements about its tokens are finite case lists
+//@ func lemmaSixTokens
+//@   lemma
+//@   requires docNTok(w) == 6
+//@   ensures [C04.json] cause1(w, 1, docNTok(w), r, e) ==> cause1(w, 1, 6, r, e)
+//@   ensures [C04.json] cause2(w, 1, docNTok(w), r, e) ==> cause2(w, 1, 6, r, e)
+//@   ensures [C04.json] cause3(w, 1, docNTok(w), r, e) ==> cause3(w, 1, 6, r, e)
+//@   ensures [C04.json] cause4(w, 1, docNTok(w), r, e) ==> cause4(w, 1, 6, r, e)
+//@   ensures [C04.json] cause5(w, 1, docNTok(w), r, e) ==> cause5(w, 1, 6, r, e)
+//@   ensures [C04.json] cause6(w, 1, docNTok(w), r, e) ==> cause6(w, 1, 6, r, e)
+//@   ensures [C04.json] cause7(w, 1, docNTok(w), r, e) ==> cause7(w, 1, 6, r, e)
+//@   ensures [C04.json] cause8(w, 1, docNTok(w), r, e) ==> cause8(w, 1, 6, r, e)
+//@   ensures [C04.json] cause9(w, 1, docNTok(w), r, e) ==> cause9(w, 1, 6, r, e)
+//@   ensures [C04.json] cause10(w, 1, docNTok(w), r, e) ==> cause10(w, 1, 6, r, e)
+//@   ensures [C04.json] cause11(w, 1, docNTok(w), r, e) ==> cause11(w, 1, 6, r, e)
+//@   ensures [C04.json] objAccepted(w, docNTok(w), r, res) ==> objAccepted(w, 6, r, res)
+
+func lemmaSixTokens(w []byte, r Rule, res Size, e error) {}
 
 // ... and applied to what MarshalJSON emits under each setting of the switches.
 //@ func lemmaC04JSONNumber
